@@ -86,6 +86,24 @@ pub mod strs {
         ensures is_ascii(trim_start_b(s, p)), is_ascii(trim_end_b(s, p)), is_ascii(trim_b(s, p)), trim_b(s, p).len() <= s.len(),
     { lemma_lead(s, p, 0); lemma_trail(s, p, s.len() as int, 0); lemma_trail(s, p, s.len() as int, lead(s, p, 0)); }
 
+    /// Trimming the two ends one after the other (in either order) is trimming both: `trim_start_matches(p).trim_end_matches(p)`.
+    pub proof fn lemma_trail_shift(s: Seq<u8>, p: spec_fn(u8) -> bool, k: int, to: int)
+        requires 0 <= k <= to <= s.len()
+        ensures trail(s.subrange(k, s.len() as int), p, to - k, 0) == trail(s, p, to, k) - k
+        decreases to - k
+    {
+        let t = s.subrange(k, s.len() as int);
+        if k < to { assert(t[to - k - 1] == s[to - 1]); if p(s[to - 1]) { lemma_trail_shift(s, p, k, to - 1); } }
+    }
+    pub broadcast proof fn lemma_trim_two_steps(s: Seq<u8>, p: spec_fn(u8) -> bool)
+        ensures #[trigger] trim_end_b(trim_start_b(s, p), p) == trim_b(s, p),
+    {
+        lemma_lead(s, p, 0);
+        let k = lead(s, p, 0);
+        lemma_trail_shift(s, p, k, s.len() as int);
+        lemma_trail(s, p, s.len() as int, k);
+        assert(trim_end_b(trim_start_b(s, p), p) =~= trim_b(s, p));
+    }
     pub open spec fn starts_with_b(s: Seq<u8>, p: Seq<u8>) -> bool { s.len() >= p.len() && s.subrange(0, p.len() as int) =~= p }
     pub open spec fn ends_with_b(s: Seq<u8>, p: Seq<u8>) -> bool { s.len() >= p.len() && s.subrange(s.len() - p.len(), s.len() as int) =~= p }
     pub open spec fn lower(c: u8) -> u8 { if 0x41u8 <= c && c <= 0x5au8 { (c + 0x20u8) as u8 } else { c } }
@@ -112,6 +130,7 @@ pub mod strs {
     }
     pub open spec fn sp_trim_start(s: Str) -> Str { mk(trim_start_b(s.b(), is_ows())) }    // trim_start_matches([' ', '\t'])
     pub open spec fn sp_trim_ows(s: Str) -> Str { mk(trim_b(s.b(), is_ows())) }            // trim_matches([' ', '\t'])
+    pub open spec fn sp_trim_end(s: Str) -> Str { mk(trim_end_b(s.b(), is_ows())) }        // trim_end_matches([' ', '\t'])
     pub open spec fn sp_trim(s: Str) -> Str { mk(trim_b(s.b(), is_ws())) }                 // trim() on an ASCII string
     pub open spec fn sp_trim_start_ws(s: Str) -> Str { mk(trim_start_b(s.b(), is_ws())) }  // trim_start()
     pub open spec fn sp_trim_end_ws(s: Str) -> Str { mk(trim_end_b(s.b(), is_ws())) }      // trim_end()
@@ -140,6 +159,7 @@ pub mod strs {
         #[verifier::external_body] pub fn split(&self, sep: char) -> (r: Split) requires (sep as u32) < 0x80 ensures r.rest@ == sp_split(*self, sep) { unimplemented!() }
         #[verifier::external_body] pub fn split_once(&self, sep: char) -> (r: Option<(Str, Str)>) requires (sep as u32) < 0x80 ensures r == sp_split_once(*self, sep) { unimplemented!() }
         #[verifier::external_body] pub fn trim_start_matches(&self, pat: [char; 2]) -> (r: Str) requires pat[0] == ' ', pat[1] == '\t' ensures r == sp_trim_start(*self) { unimplemented!() }
+        #[verifier::external_body] pub fn trim_end_matches(&self, pat: [char; 2]) -> (r: Str) requires pat[0] == ' ', pat[1] == '\t' ensures r == sp_trim_end(*self) { unimplemented!() }
         #[verifier::external_body] pub fn trim_matches(&self, pat: [char; 2]) -> (r: Str) requires pat[0] == ' ', pat[1] == '\t' ensures r == sp_trim_ows(*self) { unimplemented!() }
         #[verifier::external_body] pub fn trim(&self) -> (r: Str) requires is_ascii(self.b()) ensures r == sp_trim(*self) { unimplemented!() }
         #[verifier::external_body] pub fn trim_start(&self) -> (r: Str) requires is_ascii(self.b()) ensures r == sp_trim_start_ws(*self) { unimplemented!() }
